@@ -28,6 +28,13 @@ func init() {
 	families["reuse_pairs"] = genReusePairs
 	families["build_big"] = genBuildBig
 	families["many_fields"] = genManyFields
+	families["extremes"] = genExtremes
+	families["huge"] = genHuge
+	families["iter_share"] = genIterShare
+	families["merge_chain"] = genMergeChain
+	families["field_limit"] = genFieldLimit
+	families["mass_delete"] = genMassDelete
+	families["card_boundary"] = genCardBoundary
 	families["roundtrip_big"] = genRoundtripBig
 	families["twin_merge"] = genTwinMerge
 	families["dict_interleave"] = genDictInterleave
@@ -769,6 +776,27 @@ func genMatch(r *rand.Rand, i int) Scenario {
 		}
 		sc.Ops = append(sc.Ops, Op{Op: "match", Seg: 1 + r.Intn(4), Pairs: pairs})
 	}
+	// field names that are prefixes of one another, with terms chosen so that field+term spell the same bytes:
+	// (P, S+T) and (P+S, T) are different pairs
+	P := []string{"t", "ab", "q_"}[r.Intn(3)]
+	S := []string{"x", "_1", "s"}[r.Intn(3)]
+	T := []string{"b", "", "xx"}[r.Intn(3)]
+	one := func(d int, f string, t string) Doc {
+		id := []byte(fmt.Sprintf("m%d", d))
+		return Doc{{Name: "_id", Len: 1, Stored: true, Value: B(id), Terms: []TermOcc{{Term: B(id), Freq: 1, Locs: []Loc{}}}},
+			{Name: f, Len: 1, Value: Bytes{}, Terms: []TermOcc{{Term: B([]byte(t)), Freq: 1, Locs: []Loc{}}}}}
+	}
+	b3 := Batch{one(0, P, S+T), one(1, P+S, T), one(2, P, "other"), one(3, P+S, S+T)}
+	r.Shuffle(len(b3), func(i, j int) { b3[i], b3[j] = b3[j], b3[i] })
+	sc.Batches = append(sc.Batches, b3)
+	sc.Universe = append(sc.Universe, P, P+S)
+	sc.Ops = append(sc.Ops, Op{Op: "build", Seg: 5, Batch: 2, Mode: pickMode(r)},
+		Op{Op: "merge", File: 7, In: []int{5}, Drops: []DropSpec{{Kind: "nil"}}, Mode: pickMode(r), Buf: 64}, Op{Op: "load", File: 7, Seg: 6, Backing: []string{"mem", "file"}[r.Intn(2)]})
+	pa, pb := Pair{P, B([]byte(S + T))}, Pair{P + S, B([]byte(T))}
+	for _, seg := range []int{5, 6} {
+		sc.Ops = append(sc.Ops, Op{Op: "match", Seg: seg, Pairs: []Pair{pa, pb}}, Op{Op: "match", Seg: seg, Pairs: []Pair{pb, pa}},
+			Op{Op: "match", Seg: seg, Pairs: []Pair{pb, {P, B([]byte("other"))}, pa, {P + S, B([]byte(S + T))}}})
+	}
 	return sc
 }
 
@@ -1213,6 +1241,9 @@ func genBuildBig(r *rand.Rand, i int) Scenario {
 // segments with different subsets of them (C01, C02, C16)
 func genManyFields(r *rand.Rand, i int) Scenario {
 	nf := 70 + r.Intn(70)
+	if i%2 == 0 {
+		nf = 126 + r.Intn(14) // field ids on both sides of 127/128: two-byte varints in location records
+	}
 	names := make([]string, nf)
 	for k := range names {
 		names[k] = fmt.Sprintf("f%03d", k)
@@ -1224,7 +1255,8 @@ func genManyFields(r *rand.Rand, i int) Scenario {
 			id := []byte(fmt.Sprintf("m%d", r.Intn(1000)))
 			doc := Doc{{Name: "_id", Len: 1, Stored: true, Value: B(id), Terms: []TermOcc{{Term: B(id), Freq: 1, Locs: []Loc{}}}}}
 			for k := lo; k < hi; k++ {
-				if r.Intn(3) == 0 {
+				edge := k == 126 || k == 127 // field ids 127 and 128: the one/two-byte varint boundary
+				if r.Intn(3) == 0 && !edge {
 					continue
 				}
 				reps := 1
@@ -1233,8 +1265,16 @@ func genManyFields(r *rand.Rand, i int) Scenario {
 				}
 				for q := 0; q < reps; q++ {
 					t := termVocab[r.Intn(4)]
+					locs := []Loc{}
+					if r.Intn(3) == 0 || edge {
+						lf := "" // the field itself, or another field by name
+						if r.Intn(3) == 0 {
+							lf = doc[r.Intn(len(doc))].Name // a field this batch certainly has
+						}
+						locs = append(locs, Loc{Field: lf, Pos: q + 1, Start: 0, End: 1})
+					}
 					doc = append(doc, FieldInst{Name: names[k], Len: 1, Stored: r.Intn(4) == 0, Value: B([]byte("v")),
-						Terms: []TermOcc{{Term: B(t), Freq: 1, Locs: []Loc{}}}})
+						Terms: []TermOcc{{Term: B(t), Freq: 1, Locs: locs}}})
 				}
 			}
 			b[d] = doc
@@ -1249,9 +1289,12 @@ func genManyFields(r *rand.Rand, i int) Scenario {
 		Op{Op: "observe", Seg: 1, Level: "light"},
 		Op{Op: "persist", Seg: 1, File: 1}, Op{Op: "load", File: 1, Seg: 3, Backing: "file"}, Op{Op: "observe", Seg: 3, Level: "light"},
 		Op{Op: "merge", File: 2, In: []int{1, 2}, Drops: []DropSpec{randDropsNotAll(r, len(b1)), randDrops(r, len(b2))}, Mode: pickMode(r), Buf: 256},
-		Op{Op: "load", File: 2, Seg: 4, Backing: "mem"}, Op{Op: "observe", Seg: 4, Level: "light"})
+		Op{Op: "load", File: 2, Seg: 4, Backing: "mem"}, Op{Op: "observe", Seg: 4, Level: []string{"full", "light"}[i%2]})
 	for k := 0; k < 6; k++ {
 		f := names[nf-1-r.Intn(10)]
+		if nf > 128 && k%2 == 0 {
+			f = names[122+r.Intn(nf-122)]
+		}
 		for _, seg := range []int{1, 4} {
 			sc.Ops = append(sc.Ops, Op{Op: "pl_open", Seg: seg, Field: f, Term: B(termVocab[r.Intn(4)]), Pl: 10 + k},
 				Op{Op: "it_open_last", It: 40 + k, Freq: true, Norm: true, Locs: true}, Op{Op: "it_next_last"}, Op{Op: "it_next_last"})
@@ -1404,6 +1447,430 @@ func genDictInterleave(r *rand.Rand, i int) Scenario {
 		for s := 0; s < 14; s++ {
 			sc.Ops = append(sc.Ops, Op{Op: "dit_next", R: 10*round + 1 + r.Intn(nit)})
 		}
+	}
+	return sc
+}
+
+// extremes: shapes a small random batch never has - field names and terms longer than 127 bytes (two-byte
+// length varints), hundreds of distinct terms in one field, hundreds of locations in one posting, positions
+// and offsets near 2^31, frequencies needing two varint bytes, stored values of tens of kilobytes (C01, C02, C04, C06)
+func genExtremes(r *rand.Rand, i int) Scenario {
+	long := func(prefix string, n int) []byte {
+		b := []byte(prefix)
+		for len(b) < n {
+			b = append(b, byte('a'+len(b)%26))
+		}
+		return b
+	}
+	fLong := string(long("zlongfield", 130+r.Intn(200)))
+	names := []string{"a", fLong, "b"}
+	nd := 2 + r.Intn(4)
+	b := make(Batch, nd)
+	nterms := []int{5, 140, 300}[i%3]
+	for d := 0; d < nd; d++ {
+		id := []byte(fmt.Sprintf("x%d", d))
+		doc := Doc{{Name: "_id", Len: 1, Stored: true, Value: B(id), Terms: []TermOcc{{Term: B(id), Freq: 1, Locs: []Loc{}}}}}
+		for _, f := range names {
+			if r.Intn(4) == 0 {
+				continue
+			}
+			fi := FieldInst{Name: f, Value: Bytes{}, Terms: []TermOcc{}, DV: f == "a"}
+			switch f {
+			case "a": // many distinct terms
+				for k := 0; k < nterms; k++ {
+					if r.Intn(3) == 0 {
+						continue
+					}
+					fi.Terms = append(fi.Terms, TermOcc{Term: B([]byte(fmt.Sprintf("t%03d", k))), Freq: 1, Locs: []Loc{}})
+				}
+			case "b": // one posting with very many locations, huge positions, a two-byte frequency
+				nl := 150 + r.Intn(150)
+				occ := TermOcc{Term: B(long("term", 129+r.Intn(300))), Freq: nl + r.Intn(200), Locs: []Loc{}}
+				for j := 0; j < nl; j++ {
+					occ.Locs = append(occ.Locs, Loc{Field: []string{"", "a", fLong}[j%3], Pos: 2000000000 - j, Start: 1 << uint(j%31), End: 2147483000})
+				}
+				fi.Terms = append(fi.Terms, occ, TermOcc{Term: B([]byte{0xfe, 0xff}), Freq: 130, Locs: []Loc{}})
+			default:
+				fi.Terms = append(fi.Terms, TermOcc{Term: B([]byte("x")), Freq: 2, Locs: []Loc{{Field: "", Pos: 1, Start: 0, End: 1}}})
+				fi.Stored = true
+				big := make([]byte, []int{70000, 300, 140000}[d%3])
+				for x := range big {
+					big[x] = byte((x*7 + d) % 251)
+				}
+				fi.Value = B(big)
+			}
+			for _, t := range fi.Terms {
+				fi.Len += t.Freq
+			}
+			doc = append(doc, fi)
+		}
+		b[d] = doc
+	}
+	sc := Scenario{Name: fmt.Sprintf("extremes-%d", i), NormKind: "code", Universe: append([]string{"_id", "nosuchfield"}, names...), Batches: []Batch{b},
+		Tags: []string{"extremes"}}
+	sc.Ops = append(sc.Ops, Op{Op: "build", Seg: 1, Batch: 0, Mode: pickMode(r)}, Op{Op: "observe", Seg: 1, Level: "full"},
+		Op{Op: "persist", Seg: 1, File: 1}, Op{Op: "load", File: 1, Seg: 2, Backing: "file"}, Op{Op: "observe", Seg: 2, Level: "light"},
+		Op{Op: "merge", File: 2, In: []int{1, 2}, Drops: []DropSpec{{Kind: "set", Docs: []int{0}}, {Kind: "nil"}}, Mode: pickMode(r), Buf: 4096},
+		Op{Op: "load", File: 2, Seg: 3, Backing: "mem"}, Op{Op: "observe", Seg: 3, Level: "full"})
+	return sc
+}
+
+// huge: more than 65536 documents (a second roaring container, document numbers beyond 16 bits), almost all of
+// them inert; postings, exclusions, deletions and stored fields around the 65535/65536 boundary (C01, C02, C05, C06)
+func genHuge(r *rand.Rand, i int) Scenario {
+	n := 65536 + []int{1, 3, 70, 1500}[i%4]
+	b := make(Batch, n)
+	hot := map[int]bool{0: true, 1: true, 65534: true, 65535: true, 65536: true, n - 1: true, 32768: true, 1024: true}
+	for k := 0; k < 12; k++ {
+		hot[r.Intn(n)] = true
+	}
+	for d := 0; d < n; d++ {
+		if !hot[d] {
+			b[d] = Doc{}
+			continue
+		}
+		id := []byte(fmt.Sprintf("h%d", d))
+		occ := TermOcc{Term: B([]byte("x")), Freq: 1 + d%2, Locs: []Loc{}}
+		if d%2 == 0 {
+			occ.Locs = append(occ.Locs, Loc{Field: "", Pos: 1, Start: d, End: d + 1})
+		}
+		b[d] = Doc{{Name: "_id", Len: 1, Stored: true, Value: B(id), Terms: []TermOcc{{Term: B(id), Freq: 1, Locs: []Loc{}}}},
+			{Name: "a", Len: occ.Freq, DV: true, Value: Bytes{}, Terms: []TermOcc{occ}}}
+	}
+	sc := Scenario{Name: fmt.Sprintf("huge-%d", i), NormKind: "code", Universe: []string{"_id", "a"}, Batches: []Batch{b}, Tags: []string{"huge"}}
+	sc.Ops = append(sc.Ops, Op{Op: "build", Seg: 1, Batch: 0, Mode: []uint32{0, 1024, 1025, 100}[i%4]})
+	hots := keys(hot)
+	drop := []int{0, 65535, hots[len(hots)/2]}
+	sc.Ops = append(sc.Ops, Op{Op: "merge", File: 1, In: []int{1}, Drops: []DropSpec{{Kind: "set", Docs: drop}}, Mode: 0, Buf: 4096},
+		Op{Op: "load", File: 1, Seg: 2, Backing: []string{"mem", "file"}[i%2]})
+	for _, seg := range []int{1, 2} {
+		sc.Ops = append(sc.Ops, Op{Op: "dict", Seg: seg, Field: "a"},
+			Op{Op: "pl_open", Seg: seg, Field: "a", Term: B([]byte("x")), Except: &DropSpec{Kind: "set", Docs: []int{1, 65536}}, Pl: 10 + seg},
+			Op{Op: "it_open", Pl: 10 + seg, It: 20 + seg, Freq: true, Norm: true, Locs: true})
+		for k := 0; k < 6; k++ {
+			sc.Ops = append(sc.Ops, Op{Op: "it_next", It: 20 + seg})
+		}
+		sc.Ops = append(sc.Ops, Op{Op: "it_adv", It: 20 + seg, D: 65530}, Op{Op: "it_next", It: 20 + seg}, Op{Op: "it_adv", It: 20 + seg, D: 65536},
+			Op{Op: "it_next", It: 20 + seg}, Op{Op: "it_next", It: 20 + seg}, Op{Op: "it_next", It: 20 + seg},
+			Op{Op: "match", Seg: seg, Pairs: []Pair{{"a", B([]byte("x"))}, {"_id", B([]byte("h65536"))}}},
+			Op{Op: "stats", Seg: seg, Field: "a"},
+			Op{Op: "dv_open", Seg: seg, R: seg, Fields: []string{"a"}})
+		for _, d := range []int{0, 65535, 65536, 65534, n - 4, 1024, 65533} {
+			sc.Ops = append(sc.Ops, Op{Op: "stored", Seg: seg, N: d}, Op{Op: "dv_visit", R: seg, N: d})
+		}
+	}
+	return sc
+}
+
+// iter_share: several iterations alive at once over the lists of one dictionary, with Close() calls and
+// iterator objects handed back as prealloc to OTHER lists in between; every iteration in progress must
+// continue as if it were alone (C05, C13)
+func genIterShare(r *rand.Rand, i int) Scenario {
+	loc := []Loc{{Field: "", Pos: 1, Start: 0, End: 3}}
+	nd := 5 + r.Intn(4)
+	b := make(Batch, nd)
+	for d := 0; d < nd; d++ {
+		id := []byte(fmt.Sprintf("d%d", d))
+		var ts []TermOcc
+		if d != 2 {
+			ts = append(ts, TermOcc{Term: B([]byte("x")), Freq: 1 + d%3, Locs: []Loc{}})
+		}
+		if d%2 == 0 {
+			ts = append(ts, TermOcc{Term: B([]byte("y")), Freq: 2, Locs: loc})
+		}
+		if d == 3 {
+			ts = append(ts, TermOcc{Term: B([]byte("z")), Freq: 1, Locs: []Loc{}})
+		}
+		l := 0
+		for _, t := range ts {
+			l += t.Freq
+		}
+		b[d] = Doc{{Name: "_id", Len: 1, Stored: true, Value: B(id), Terms: []TermOcc{{Term: B(id), Freq: 1, Locs: []Loc{}}}},
+			{Name: "a", Len: l, Value: Bytes{}, Terms: ts}}
+	}
+	sc := Scenario{Name: fmt.Sprintf("iter_share-%d", i), NormKind: "code", Universe: []string{"_id", "a"}, Batches: []Batch{b}, Tags: []string{"iter_share"}}
+	mode := []uint32{1, 2, 0, 3}[i%4]
+	sc.Ops = append(sc.Ops, Op{Op: "build", Seg: 1, Batch: 0, Mode: mode},
+		Op{Op: "merge", File: 1, In: []int{1}, Drops: []DropSpec{{Kind: "nil"}}, Mode: mode, Buf: 64},
+		Op{Op: "load", File: 1, Seg: 2, Backing: []string{"mem", "file"}[(i/4)%2]})
+	seg := 1 + (i/8)%2
+	terms := [][]byte{[]byte("x"), []byte("y"), []byte("z"), []byte("x")}
+	// list objects: 10.. ; iterator objects 20..
+	npl := 2 + r.Intn(2)
+	for k := 0; k < npl; k++ {
+		o := Op{Op: "pl_open", Seg: seg, Field: "a", Term: B(terms[(i+k)%len(terms)]), Pl: 10 + k}
+		if r.Intn(3) == 0 {
+			o.Except = &DropSpec{Kind: "set", Docs: []int{r.Intn(nd)}}
+		}
+		sc.Ops = append(sc.Ops, o)
+	}
+	type itS struct {
+		h      int
+		closed bool
+	}
+	var its []*itS
+	next := 20
+	openOn := func(pl int, pre int) *itS {
+		fl := r.Intn(8)
+		h := next
+		next++
+		if pre != 0 {
+			h = pre
+		}
+		sc.Ops = append(sc.Ops, Op{Op: "it_open", Pl: pl, It: h, Prealloc: pre, Freq: fl&1 != 0, Norm: fl&2 != 0, Locs: fl&4 != 0})
+		return &itS{h: h}
+	}
+	for round := 0; round < 5+r.Intn(4); round++ {
+		// open an iteration: fresh, or on a closed/abandoned iterator object
+		pre := 0
+		if len(its) > 0 && r.Intn(2) == 0 {
+			k := r.Intn(len(its))
+			pre = its[k].h
+			its = append(its[:k], its[k+1:]...) // that iteration is over: its object now serves the new one
+		}
+		its = append(its, openOn(10+r.Intn(npl), pre))
+		// step every live iteration a little, in random order
+		for s := 0; s < 2+r.Intn(5); s++ {
+			live := []*itS{}
+			for _, x := range its {
+				if !x.closed {
+					live = append(live, x)
+				}
+			}
+			if len(live) == 0 {
+				break
+			}
+			x := live[r.Intn(len(live))]
+			if r.Intn(4) == 0 {
+				sc.Ops = append(sc.Ops, Op{Op: "it_adv", It: x.h, D: r.Intn(nd + 1)})
+			} else {
+				sc.Ops = append(sc.Ops, Op{Op: "it_next", It: x.h})
+			}
+		}
+		if r.Intn(2) == 0 {
+			x := its[r.Intn(len(its))]
+			if !x.closed {
+				sc.Ops = append(sc.Ops, Op{Op: "it_close", It: x.h})
+				x.closed = true
+			}
+		}
+	}
+	// run every iteration still open to its end
+	for _, x := range its {
+		if !x.closed {
+			for s := 0; s < nd+1; s++ {
+				sc.Ops = append(sc.Ops, Op{Op: "it_next", It: x.h})
+			}
+		}
+	}
+	return sc
+}
+
+// merge_chain: merges of merges in which some inputs have lost every document (zero-document segments that
+// still list fields, without dictionaries), fields known to only one input, and the empty segment merged again
+// alone and with others (C02, C04, C16, C17)
+func genMergeChain(r *rand.Rand, i int) Scenario {
+	pool := []string{"a", "b", "c", "m", "zz", "_all"}
+	sc := Scenario{Name: fmt.Sprintf("merge_chain-%d", i), NormKind: "code", Tags: []string{"merge_chain"}}
+	seq := 0
+	uni := map[string]bool{"_id": true, "nosuchfield": true}
+	lens := []int{}
+	for k := 0; k < 3; k++ {
+		cfg := defaultCfg(r)
+		r.Shuffle(len(pool), func(a, b int) { pool[a], pool[b] = pool[b], pool[a] })
+		cfg.Fields = append([]string{}, pool[:1+r.Intn(3)]...)
+		only := fmt.Sprintf("only%d", k) // a field no other input knows; sorts after and between the others
+		if k == 1 {
+			only = "an1"
+		}
+		cfg.Fields = append(cfg.Fields, only)
+		cfg.StatsMode = true
+		cfg.MinDocs, cfg.MaxDocs = 1, 4
+		cfg.PEmptyDoc = 0.05
+		b := genBatch(r, &cfg, &seq)
+		sc.Batches = append(sc.Batches, b)
+		lens = append(lens, len(b))
+		for _, f := range cfg.Fields {
+			uni[f] = true
+		}
+		sc.Ops = append(sc.Ops, Op{Op: "build", Seg: k + 1, Batch: k, Mode: pickMode(r)})
+	}
+	for f := range uni {
+		sc.Universe = append(sc.Universe, f)
+	}
+	sort.Strings(sc.Universe)
+	allOf := func(n int) DropSpec {
+		d := make([]int, n)
+		for x := range d {
+			d[x] = x
+		}
+		return DropSpec{Kind: "set", Docs: d}
+	}
+	none := func() DropSpec { return []DropSpec{{Kind: "nil"}, {Kind: "set", Docs: []int{}}}[r.Intn(2)] }
+	mg := func(file int, in []int, drops []DropSpec) {
+		sc.Ops = append(sc.Ops, Op{Op: "merge", File: file, In: in, Drops: drops, Mode: pickMode(r), Buf: 64},
+			Op{Op: "load", File: file, Seg: file, Backing: []string{"mem", "file"}[r.Intn(2)]})
+	}
+	e := 1 + i%3 // the input that loses everything
+	o1, o2 := 1+(e%3), 1+((e+1)%3)
+	mg(10, []int{e}, []DropSpec{allOf(lens[e-1])})                       // zero documents, fields of e
+	mg(11, []int{10, o1}, []DropSpec{none(), randDropsNotAll(r, lens[o1-1])}) // empty first
+	mg(12, []int{o2, 10}, []DropSpec{randDrops(r, lens[o2-1]), none()})       // empty last
+	mg(13, []int{10}, []DropSpec{none()})                                    // empty alone
+	mg(14, []int{11, 13, 12}, []DropSpec{{Kind: "nil"}, none(), {Kind: "nil"}})
+	mg(15, []int{o1, 10, 13, o2}, []DropSpec{none(), none(), none(), none()})
+	for _, h := range []int{10, 11, 12, 13, 14, 15} {
+		sc.Ops = append(sc.Ops, Op{Op: "observe", Seg: h, Level: "full"})
+	}
+	return sc
+}
+
+// mass_delete: segments of several thousand (mostly inert) documents merged with thousands of deletions - long
+// runs, runs ending exactly at multiples of 4096 deleted documents, every other document, all but a few (C02, C03)
+func genMassDelete(r *rand.Rand, i int) Scenario {
+	n := 4200 + r.Intn(5000)
+	mk := func(n, base int) (Batch, []int) {
+		b := make(Batch, n)
+		hot := []int{}
+		for d := 0; d < n; d++ {
+			if d%211 == 0 || d == n-1 || r.Intn(400) == 0 {
+				id := []byte(fmt.Sprintf("k%d", base+d))
+				b[d] = Doc{{Name: "_id", Len: 1, Stored: true, Value: B(id), Terms: []TermOcc{{Term: B(id), Freq: 1, Locs: []Loc{}}}},
+					{Name: "a", Len: 1, DV: true, Value: Bytes{}, Terms: []TermOcc{{Term: B([]byte("x")), Freq: 1, Locs: []Loc{}}}}}
+				hot = append(hot, d)
+			} else {
+				b[d] = Doc{}
+			}
+		}
+		return b, hot
+	}
+	b1, hot1 := mk(n, 0)
+	b2, _ := mk(300+r.Intn(300), 100000)
+	del := map[int]bool{}
+	run := func(from, cnt int) {
+		for d := from; d < from+cnt && d < n; d++ {
+			del[d] = true
+		}
+	}
+	switch i % 5 {
+	case 0: // one long run
+		run(r.Intn(50), 4097+r.Intn(n-4200))
+	case 1: // exactly k*4096 deletions in a run, then a survivor, then more
+		s := r.Intn(40)
+		run(s, 4096)
+		run(s+4097, 1+r.Intn(60))
+	case 2: // every other document, then a run
+		for d := 0; d < n; d += 2 {
+			del[d] = true
+		}
+		run(n/2, 300)
+	case 3: // all but a few
+		run(0, n)
+		for k := 0; k < 5; k++ {
+			delete(del, r.Intn(n))
+		}
+		delete(del, hot1[len(hot1)/2])
+	case 4: // runs whose deleted count passes 4096 in the middle of a run
+		run(10, 4000)
+		run(4020, 200)
+		run(4300, r.Intn(400))
+	}
+	sc := Scenario{Name: fmt.Sprintf("mass_delete-%d", i), NormKind: "code", Universe: []string{"_id", "a"}, Batches: []Batch{b1, b2}, Tags: []string{"mass_delete"}}
+	sc.Ops = append(sc.Ops, Op{Op: "build", Seg: 1, Batch: 0, Mode: 0}, Op{Op: "build", Seg: 2, Batch: 1, Mode: 0})
+	in, drops := []int{1, 2}, []DropSpec{{Kind: "set", Docs: keys(del)}, randDrops(r, len(b2))}
+	if i%2 == 1 {
+		in, drops = []int{2, 1}, []DropSpec{drops[1], drops[0]}
+	}
+	sc.Ops = append(sc.Ops, Op{Op: "merge", File: 1, In: in, Drops: drops, Mode: 0, Buf: 4096},
+		Op{Op: "load", File: 1, Seg: 3, Backing: []string{"mem", "file"}[r.Intn(2)]},
+		Op{Op: "dict", Seg: 3, Field: "a"}, Op{Op: "dict", Seg: 3, Field: "_id"}, Op{Op: "stats", Seg: 3, Field: "a"},
+		Op{Op: "pl_open", Seg: 3, Field: "a", Term: B([]byte("x")), Pl: 10}, Op{Op: "it_open", Pl: 10, It: 20, Freq: true, Norm: true, Locs: true})
+	for k := 0; k < len(hot1)+6; k++ {
+		sc.Ops = append(sc.Ops, Op{Op: "it_next", It: 20})
+	}
+	sc.Ops = append(sc.Ops, Op{Op: "dv_open", Seg: 3, R: 1, Fields: []string{"a"}})
+	surv := n - len(del)
+	for _, d := range []int{0, 1, surv - 1, surv, surv + 1, surv / 2, 127, 128} {
+		if d >= 0 {
+			sc.Ops = append(sc.Ops, Op{Op: "stored", Seg: 3, N: d})
+			if d < surv {
+				sc.Ops = append(sc.Ops, Op{Op: "dv_visit", R: 1, N: d})
+			}
+		}
+	}
+	return sc
+}
+
+// card_boundary: postings lists whose cardinality sits on and around the multiples of 1024 at which the default
+// chunk mode changes the chunk size, merged with already merged inputs that carry the same term as a 1-hit value
+// - kept and deleted; all-at-once against pairwise (C02, C05, C17)
+func genCardBoundary(r *rand.Rand, i int) Scenario {
+	ns := []int{1023, 1024, 1022, 1025, 2047, 2048}
+	n := ns[i%len(ns)]
+	b1 := make(Batch, n)
+	for d := 0; d < n; d++ {
+		occ := TermOcc{Term: B([]byte("t")), Freq: 1 + d%2, Locs: []Loc{}}
+		if d%97 == 3 {
+			occ.Locs = append(occ.Locs, Loc{Field: "", Pos: d, Start: 0, End: 1})
+		}
+		b1[d] = Doc{{Name: "a", Len: occ.Freq, Value: Bytes{}, Terms: []TermOcc{occ}}}
+	}
+	one := func(k int) Batch {
+		id := []byte(fmt.Sprintf("s%d", k))
+		return Batch{Doc{{Name: "_id", Len: 1, Stored: true, Value: B(id), Terms: []TermOcc{{Term: B(id), Freq: 1, Locs: []Loc{}}}},
+			{Name: "a", Len: 1, Value: Bytes{}, Terms: []TermOcc{{Term: B([]byte("t")), Freq: 1, Locs: []Loc{}}}}}}
+	}
+	sc := Scenario{Name: fmt.Sprintf("card_boundary-%d", i), NormKind: "code", Universe: []string{"_id", "a"}, Batches: []Batch{b1, one(1), one(2)},
+		Tags: []string{"card_boundary"}}
+	nilD := DropSpec{Kind: "nil"}
+	all1 := DropSpec{Kind: "set", Docs: []int{0}}
+	sc.Ops = append(sc.Ops, Op{Op: "build", Seg: 1, Batch: 0, Mode: 0}, Op{Op: "build", Seg: 2, Batch: 1, Mode: 0}, Op{Op: "build", Seg: 3, Batch: 2, Mode: 0},
+		// already merged single-document inputs: the term is a 1-hit value there
+		Op{Op: "merge", File: 12, In: []int{2}, Drops: []DropSpec{nilD}, Mode: 0, Buf: 64}, Op{Op: "load", File: 12, Seg: 12, Backing: "mem"},
+		Op{Op: "merge", File: 13, In: []int{3}, Drops: []DropSpec{nilD}, Mode: 0, Buf: 64}, Op{Op: "load", File: 13, Seg: 13, Backing: "mem"})
+	d12, d13 := []DropSpec{all1, nilD}[(i/6)%2], []DropSpec{nilD, all1}[(i/12)%2]
+	var d1 DropSpec = nilD
+	if (i/3)%2 == 1 {
+		d1 = DropSpec{Kind: "set", Docs: []int{r.Intn(n)}}
+	}
+	// all at once
+	sc.Ops = append(sc.Ops, Op{Op: "merge", File: 20, In: []int{1, 12, 13}, Drops: []DropSpec{d1, d12, d13}, Mode: 0, Buf: 4096},
+		Op{Op: "load", File: 20, Seg: 20, Backing: "mem"},
+		// pairwise: the small ones first (their deletions applied there), then with the big one
+		Op{Op: "merge", File: 21, In: []int{12, 13}, Drops: []DropSpec{d12, d13}, Mode: 0, Buf: 64}, Op{Op: "load", File: 21, Seg: 21, Backing: "mem"},
+		Op{Op: "merge", File: 22, In: []int{1, 21}, Drops: []DropSpec{d1, nilD}, Mode: 0, Buf: 4096}, Op{Op: "load", File: 22, Seg: 22, Backing: "mem"},
+		Op{Op: "observe", Seg: 20, Level: "full"}, Op{Op: "observe", Seg: 22, Level: "full"}, Op{Op: "same_obs", In: []int{20, 22}})
+	return sc
+}
+
+// field_limit: as many distinct fields as the 16-bit field id allows (65535 including _id) and a few below;
+// built, persisted, loaded memory-backed (C01, C04)
+func genFieldLimit(r *rand.Rand, i int) Scenario {
+	nf := []int{65535, 65534, 65535, 40000}[i%4] // number of fields including _id
+	doc := Doc{{Name: "_id", Len: 1, Stored: true, Value: B([]byte("w")), Terms: []TermOcc{{Term: B([]byte("w")), Freq: 1, Locs: []Loc{}}}}}
+	names := make([]string, 0, nf)
+	for k := 0; k < nf-1; k++ {
+		names = append(names, fmt.Sprintf("g%05d", k))
+	}
+	for k, f := range names {
+		fi := FieldInst{Name: f, Len: 0, Value: Bytes{}, Terms: []TermOcc{}}
+		if k%5000 == 0 || k >= nf-4 {
+			fi.Len, fi.Terms = 1, []TermOcc{{Term: B([]byte("x")), Freq: 1, Locs: []Loc{}}}
+		}
+		doc = append(doc, fi)
+	}
+	b := Batch{doc, Doc{{Name: "_id", Len: 1, Stored: true, Value: B([]byte("v")), Terms: []TermOcc{{Term: B([]byte("v")), Freq: 1, Locs: []Loc{}}}}}}
+	sc := Scenario{Name: fmt.Sprintf("field_limit-%d", i), NormKind: "code", Universe: []string{"_id", names[0], names[len(names)-1], names[len(names)-2]},
+		Batches: []Batch{b}, Tags: []string{"field_limit"}}
+	sc.Ops = append(sc.Ops, Op{Op: "build", Seg: 1, Batch: 0, Mode: 0}, Op{Op: "persist", Seg: 1, File: 1}, Op{Op: "load", File: 1, Seg: 2, Backing: "mem"})
+	for _, seg := range []int{1, 2} {
+		sc.Ops = append(sc.Ops, Op{Op: "fields", Seg: seg})
+		for _, f := range []string{names[len(names)-1], names[0], names[len(names)-2]} {
+			sc.Ops = append(sc.Ops, Op{Op: "dict", Seg: seg, Field: f}, Op{Op: "stats", Seg: seg, Field: f},
+				Op{Op: "pl_open", Seg: seg, Field: f, Term: B([]byte("x")), Pl: 10}, Op{Op: "it_open_last", It: 20, Freq: true, Norm: true, Locs: true},
+				Op{Op: "it_next_last"}, Op{Op: "it_next_last"})
+		}
+		sc.Ops = append(sc.Ops, Op{Op: "stored", Seg: seg, N: 0}, Op{Op: "stored", Seg: seg, N: 1})
 	}
 	return sc
 }
